@@ -682,3 +682,34 @@ Proof.
 Qed.
 
 End History.
+
+(** * feedback of a remapping insertion (C02 for SlidingBoundariesArchive): status and value of the newest solution are judged
+    against the REBUILT archive (previous elites, then the buffer without the newest solution, under the new geometry) as it is just
+    before the newest solution is inserted *)
+Section RemapFeedback.
+Variable P : Type.
+Notation PP := (list Q * P)%type.
+
+Definition rebuilt (c : scfg) (st : sstate P) : archive PP :=
+  let g' := new_geom c (sorted_measures c (ss_buf st)) in
+  fst (add (acfg c) (clear (acfg c) (ss_arch st))
+           (map (cand_of_row c g') (cur_rows (ss_arch st)) ++ map (cand_of_entry c g') (removelast (ss_buf st)))).
+
+Theorem remap_feedback c (st : sstate P) lst r :
+  cwf c -> SInv c st -> rev (ss_buf st) = lst :: r ->
+  let g' := new_geom c (sorted_measures c (ss_buf st)) in
+  let x := cand_of_entry c g' lst in
+  snd (remap false c st) = (judge_status (acfg c) (rebuilt c st) x, judge_value (acfg c) (rebuilt c st) x).
+Proof.
+  intros Hc HS Hrev g' x. unfold remap. rewrite Hrev. fold g'.
+  change (fst (add (acfg c) (clear (acfg c) (ss_arch st))
+                   (map (cand_of_row c g') (cur_rows (ss_arch st)) ++ map (cand_of_entry c g') (removelast (ss_buf st)))))
+    with (rebuilt c st).
+  assert (HA : AInv (acfg c) (rebuilt c st)).
+  { unfold rebuilt. apply add_inv. apply clear_ainv. apply (si_ainv HS). }
+  pose proof (@add_single_feedback PP (acfg c) (rebuilt c st) x HA) as Hfb.
+  destruct (add_single (acfg c) (rebuilt c st) (cand_of_entry c g' lst)) as [a3 fb] eqn:E.
+  simpl. unfold x in Hfb. rewrite E in Hfb. simpl in Hfb. exact Hfb.
+Qed.
+
+End RemapFeedback.
